@@ -263,6 +263,27 @@ def run_case(p, drv):
         if bad.any():
             r = int(np.argwhere(bad)[0][0])
             fail('C12:label-not-argmax', f'row {r} ({kinds[r]}): predict {int(Lb[r])}, predict_proba {P[r].tolist()}')
+        # the same consistency on batches of one and of three rows (a label must not depend on which rows share the call)
+        sub = list(range(min(nq, 36)))
+        for lo, hi in [(i, i + 1) for i in sub] + [(i, i + 3) for i in sub[::3]]:
+            try:
+                Ps = np.asarray(model.predict_proba(Xq[lo:hi])).astype(np.float64)
+                Ls = np.asarray(model.predict(Xq[lo:hi]))
+            except Exception as e:
+                fail(f'C12:raises:{type(e).__name__}', f'rows {lo}:{hi} alone: {type(e).__name__}: {e}')
+                break
+            if Ps.shape != (min(hi, nq) - lo, K) or Ls.shape != (min(hi, nq) - lo,):
+                fail('C12:proba-shape', f'rows {lo}:{hi} alone: predict_proba shape {Ps.shape}, predict shape {Ls.shape}')
+                break
+            ss = np.sort(Ps, 1)
+            gp = ss[:, -1] - ss[:, -2]
+            tie_s = (gp < 1e-6) & (gp > 0)
+            bad_s = (Ps.argmax(1) != Ls) & ~tie_s
+            checked['argmax'] += int((~tie_s).sum())
+            if bad_s.any():
+                r = lo + int(np.argwhere(bad_s)[0][0])
+                fail('C12:label-not-argmax', f'row {r} ({kinds[r]}) in the batch {lo}:{hi}: predict {int(Ls[r - lo])}, predict_proba {Ps[r - lo].tolist()}')
+                break
     prior = np.array(ctr, dtype=np.float64) / float(sum(ctr))
     if mode == 'prevalence' and ok_shape:
         cl = np.clip(prior, 1e-3, 1 - 1e-3)
